@@ -12,6 +12,7 @@ from robotools.worklists.utils import (
     optimize_partition_by,
     partition_by_column,
     partition_volume,
+    prepare_aspirate_dispense_parameters,
 )
 
 __all__ = ("FluentWorklist",)
@@ -103,6 +104,10 @@ class FluentWorklist(BaseWorklist):
 
         if np.any(volumes < 0):
             raise ValueError(f"Volumes must be positive or zero. They were {volumes}")
+
+        # validate both rack labels up front, so that an invalid destination does not leave half a pair behind
+        for labware in (source, destination):
+            prepare_aspirate_dispense_parameters(labware.name, 1, 0)
 
         # automatic partitioning
         partition_by = optimize_partition_by(source, destination, partition_by, label)
